@@ -10,7 +10,7 @@ exception class and OPC constrains the state.
 """
 from pyvc.contracts import contract
 from pyvc.vocab import (forall, implies, ubig, sdecode, pow2, items_of, str_keys_same, strint_keys_same,
-                        is_bytes_or_absent, is_bool_or_absent, list_len_at, is_list_or_absent,
+                        is_bytes_or_absent, is_bool_or_absent, list_len_at, is_list_or_absent, all_values_refs,
                         take_top, put_all, all_nonempty, AnyError, sha256, shake256, fresh_bytes, ghost)
 from tapescript.errors import ScriptExecutionError
 from tapescript.functions import (int_to_bytes, bytes_to_int, bytes_to_bool, not_bytes, bytes_to_float,
@@ -48,7 +48,12 @@ def plugins_typed(tape):
 
 def vm_ok(tape, stack, cache):
     return tape_ok(tape) + stack_ok(stack) + [('clean', clean(cache))] + sigfields_ok(cache) + flags_typed(tape) + \
-        flags_complete(tape) + plugins_typed(tape)
+        plugins_typed(tape)
+
+
+def defs_ok(tape):
+    """every definition is a reference to a Tape object (only OP_DEF stores into tape.definitions)"""
+    return [('definitions.refs', all_values_refs(tape.definitions))]
 
 
 def opc_post(old, tape, stack, cache, raised):
@@ -63,7 +68,19 @@ def opc_post(old, tape, stack, cache, raised):
         # C08, the form every op meets and dispatch may assume: str keys other than 'returned' untouched
         ('ks-frame-but-returned', implies(no_plugins_at_all(tape), ks_same_but_returned(old.cache, cache))),
         ('callstack.monotone', tape.callstack_count >= old.tape.callstack_count),
-    ] + sigfields_ok(cache) + flags_typed(tape) + flags_complete(tape)
+    ] + sigfields_ok(cache) + flags_typed(tape) + flags_complete_if(old, tape) + defs_ok_if(old, tape)
+
+
+def flags_complete_if(old, tape):
+    """completeness of the flag table is preserved"""
+    pre = True
+    for label, c in flags_complete(old.tape):
+        pre = pre and c
+    return [(label, implies(pre, c)) for label, c in flags_complete(tape)]
+
+
+def defs_ok_if(old, tape):
+    return [('definitions.refs', implies(all_values_refs(old.tape.definitions), all_values_refs(tape.definitions)))]
 
 
 def sigfields_ok_if(c, cache):
@@ -94,6 +111,17 @@ class OPC:
 
     def ensures(old, tape, stack, cache, result, raised):
         return opc_post(old, tape, stack, cache, raised)
+
+
+@contract('functions.<DISPATCH>')
+class DISPATCH:
+    """what the dispatch loop of run_tape must establish before calling `some table entry`: the union of
+    the preconditions of all instructions (checked mechanically by the dispatch hook: every clause label
+    of every table entry's `requires` occurs here)"""
+    extends = 'functions.<OPC>'
+
+    def requires(tape, stack, cache):
+        return flags_complete(tape) + defs_ok(tape)
 
 
 @contract('functions.<OPF>')
